@@ -15,6 +15,28 @@ RULE = ("metamorphic groups: one target pixel (destination, mask byte, paint, mo
 KNOWN_MODES = MASK_ZERO_WRITES
 
 
+def f2b_(v):
+    import struct
+    return struct.unpack("<I", struct.pack("<f", v))[0]
+
+
+def b2f_(b):
+    import struct
+    return struct.unpack("<f", struct.pack("<I", b))[0]
+
+
+def tie_channels():
+    """bit patterns of binary32 values x in (0, 1] with f32(x * 255) = k + 1/2 exactly"""
+    out = []
+    for k in range(0, 255):
+        x = f32((k + 0.5) / 255.0)
+        for d in (-1, 0, 1):
+            b = f2b_(x) + d
+            if f32(b2f_(b) * 255.0) == k + 0.5:
+                out.append(b)
+    return out
+
+
 def gen_cases(rng, tier):
     cases = []
     groups = 500 if tier == "quick" else 8000
@@ -35,6 +57,48 @@ def gen_cases(rng, tier):
             ln = rng.randint(left - x0 + 1, len(row) - x0)
             cs, args = px_case(kind, mode, hq, False, color, has_mask, x0, ln, row, extra)
             cases.append((cs, args + [-777, g, left]))   # trailing tag: group id, target index (ignored by the runners)
+    # float colours whose premultiplied channel times 255 is an exact tie k + 1/2 in binary32 (8-bit colours never are):
+    # the rounding of the store must not depend on whether the pixel falls in a full batch or in the tail of the span
+    ties = tie_channels()
+    for g in range(60 if tier == "quick" else 600):
+        mode = rng.choice([1, 1, 11, 4, 13, 14, 24, 3, rng.randrange(25)])
+        hq = rng.random() < 0.8
+        has_mask = rng.random() < 0.3
+        alpha = rng.choice([1.0, 1.0, 0.5])
+        chans = []
+        for _ in range(3):
+            t = rng.choice(ties)
+            # with alpha 0.5 the channel is doubled so that the premultiplied value is the tie again
+            chans.append(f2b_(min(1.0, b2f_(t) / alpha)) if b2f_(t) / alpha <= 1.0 else t)
+        color = tuple(chans) + (f2b_(alpha),)
+        tgt = (0, 0, 0, 0, 255) if rng.random() < 0.7 else rand_premul(rng) + (255,)
+        for v in range(6):
+            left = rng.randint(0, 24)
+            right = rng.randint(0, 24)
+            nb = lambda: rand_premul(rng) + ((rng.choice([0, 255, rng.randint(0, 255)]) if has_mask else 255),)
+            row = [nb() for _ in range(left)] + [tgt] + [nb() for _ in range(right)]
+            x0 = rng.randint(0, left)
+            ln = rng.randint(left - x0 + 1, len(row) - x0)
+            cs, args = px_case(0, mode, hq, False, color, has_mask, x0, ln, row, [])
+            cases.append((cs, args + [-777, 2 * 10**8 + g, left]))
+    # mask bytes OUTSIDE the span: the target and every other pixel of the span have mask 0 (the batch is skipped as a whole);
+    # what the mask holds beyond the end of the span must not matter
+    for g in range(60 if tier == "quick" else 600):
+        mode = rng.choice([0, 1, 5, 6, 7, 10, 13, rng.randrange(29)])
+        hq = rng.random() < 0.5
+        color = rand_color(rng)
+        tgt = rand_premul(rng) + (0,)
+        span_len = rng.randint(1, 7)
+        pos = rng.randrange(span_len)
+        for v in range(5):
+            left = rng.choice([0, 0, 8, 16, rng.randint(0, 20)])
+            right = rng.randint(1, 20)
+            inside = [rand_premul(rng) + (0,) for _ in range(span_len)]
+            inside[pos] = tgt
+            out_mask = (lambda: 0) if v == 0 else (lambda: rng.choice([255, 255, 1, rng.randint(0, 255)]))
+            row = [rand_premul(rng) + (out_mask(),) for _ in range(left)] + inside + [rand_premul(rng) + (out_mask(),) for _ in range(right)]
+            cs, args = px_case(0, mode, hq, False, color, True, left, span_len, row, [])
+            cases.append((cs, args + [-777, 3 * 10**8 + g, left + pos]))
     # tiled, multi-row draws (pixmap wider than 8191, three rows): the target sits in the narrow last tile column;
     # its neighbours' destination and mask bytes vary, and one member of the group is an untiled pixmap
     for g in range(4 if tier == "quick" else 40):
@@ -81,8 +145,9 @@ def post_oracle(cases, outs):
     for g, lst in groups.items():
         vals = set(v for _, v in lst)
         if len(vals) > 1:
-            i = lst[0][0]
-            bad.append((i, "target pixel written as %s depending on neighbours / span position" % sorted(vals)[:3]))
+            # one entry per member: a listed finding covers a group only if the model reproduces every member of it
+            for i, _ in lst:
+                bad.append((i, "target pixel written as %s depending on neighbours / span position" % sorted(vals)[:3]))
     return bad
 
 
